@@ -71,6 +71,10 @@ def generate(tier, seed):
         for name in NORMS[1:]:
             lam = float(rng.choice([-0.7, -0.2, 0.0, 0.3, 0.6, 1.0, 1.4]))
             cases.append(("fit", {"norm": name, "lam": lam, "dseed": int(rng.integers(1 << 30)), "n": int(rng.choice([200, 1000]))}))
+    for rep in range(3 * n):
+        cases.append(("fit_skip", {"lam": float(rng.choice([-0.5, 0.0, 0.3, 0.6, 1.0, 1.4])), "skip": [None, ["shift"], ["lmbda"], ["lmbda", "shift"]][int(rng.integers(0, 4))],
+                                   "dseed": int(rng.integers(1 << 30)), "n": int(rng.choice([200, 600]))}))
+        cases.append(("live", {"norm": str(rng.choice(NORMS)), "lam": float(rng.choice([-1.0, -0.5, 0.0, 0.5, 1.0, 2.0])), "dseed": int(rng.integers(1 << 30))}))
     classes = ["Field", "SRF", "SRFvec", "Krige", "CondSRF"]
     for rep in range(6 * n):
         for cls in classes:
@@ -368,6 +372,96 @@ def check_fit(ctx, c):
         ctx.fail({"what": "fit!=scipy-mle", "norm": name}, f"scipy {ref} vs {lam_hat}")
 
 
+def check_fit_skip(ctx, c):
+    """fit(skip=[...]): skipped parameters keep their value, the others maximise the likelihood, the returned dict is the state."""
+    rng = np.random.default_rng(c["dseed"])
+    lam, shift = c["lam"], 0.5
+    p_true = {"lmbda": lam, "shift": shift}
+    z = _zsample("BoxCoxShift", p_true, rng, c["n"], 0.35)
+    with np.errstate(all="ignore"):
+        x = onorm.inverse("BoxCoxShift", p_true, z)
+    if not np.all(np.isfinite(x)):
+        ctx.discard("sample leaves the representable range")
+        return
+    skip = c["skip"]
+    start = {"lmbda": float(rng.choice([0.5, 1.0, lam])), "shift": shift if "shift" in (skip or []) else float(shift + rng.uniform(0.0, 0.3))}
+    norm = gs.normalizer.BoxCoxShift(**start)
+    with warnings.catch_warnings():
+        warnings.simplefilter("ignore")
+        with np.errstate(all="ignore"):
+            res = norm.fit(x, skip=skip)
+    ctx.event("fit_checked")
+    ctx.cell(f"fit_skip/{'+'.join(skip) if skip else 'none'}")
+    state = {"lmbda": float(norm.lmbda), "shift": float(norm.shift)}
+    mech = {"what": "fit(skip)", "norm": "BoxCoxShift", "skip": str(skip)}
+    if skip and set(skip) == set(state):
+        # nothing left to fit: documented to warn and return {}; the state must be untouched
+        if res or state != start:
+            ctx.fail(dict(mech, what="fit-with-everything-skipped"), f"returned {res}, state {state}, before {start}")
+        return
+    if set(res) != set(state) or any(not (float(res[k]) == state[k] or (math.isnan(float(res[k])) and math.isnan(state[k]))) for k in state):
+        ctx.fail(dict(mech, what="fit-result!=state"), f"returned {res}, state {state}")
+        return
+    for k in skip or []:
+        if state[k] != start[k]:
+            ctx.fail(dict(mech, what="skipped-parameter-changed", par=k), f"skip={skip}: {k} was {start[k]} and is {state[k]} after the fit")
+            return
+
+    def ll(p):
+        with np.errstate(all="ignore"):
+            v = onorm.loglikelihood("BoxCoxShift", p, x[(x + p["shift"]) > 0])
+        return v if (math.isfinite(v) and np.all(x + p["shift"] > 0)) else -math.inf
+
+    l_hat = ll(state)
+    # a free shift makes the likelihood unbounded (x + shift -> 0): the maximum-likelihood definition only exists for lmbda with the
+    # shift held fixed, which is what is asserted
+    if "shift" not in (skip or []):
+        ctx.event("fit_with_free_shift(no ML reference)")
+        return
+    for k in state:
+        if k in (skip or []):
+            continue
+        for d in (1e-3, 1e-2, 1e-1):
+            for sgn in (-1, 1):
+                other = ll(dict(state, **{k: state[k] + sgn * d}))
+                if other > l_hat + 1e-5 * max(1.0, abs(l_hat)):
+                    ctx.fail(dict(mech, what="fit-not-a-maximiser", par=k), f"skip={skip}: loglik({k}={state[k] + sgn * d:.4f})={other:.6f} > loglik(fit {state})={l_hat:.6f}")
+                    return
+
+
+def check_live(ctx, c):
+    """One normalizer instance whose parameters change (by hand or by a fit) between calls behaves like a fresh instance."""
+    rng = np.random.default_rng(c["dseed"])
+    name = c["norm"]
+    p0 = _params(name, c["lam"], 0.5)
+    norm = _make(name, p0)
+    ctx.cell(f"live/{name}")
+    for step in range(3):
+        p = dict(p0) if step == 0 else _params(name, float(rng.choice([-1.0, -0.5, 0.0, 0.5, 1.0, 2.0])), 0.5)
+        if step:
+            for k, v in p.items():
+                setattr(norm, k, v)
+        fresh = _make(name, p)
+        lo, hi = onorm.y_range(name, p)
+        y = rng.normal(0.0, 1.5, size=40)
+        xx = rng.normal(0.5, 1.5, size=40)
+        with warnings.catch_warnings():
+            warnings.simplefilter("ignore")
+            with np.errstate(all="ignore"):
+                for fn, arg in (("denormalize", y), ("normalize", xx), ("derivative", xx)):
+                    a, b = np.asarray(getattr(norm, fn)(arg), dtype=float), np.asarray(getattr(fresh, fn)(arg), dtype=float)
+                    ctx.event("live_calls_compared")
+                    if not np.array_equal(a, b, equal_nan=True):
+                        i = int(np.argmax(~((a == b) | (np.isnan(a) & np.isnan(b)))))
+                        ctx.fail({"what": "normalizer-instance-depends-on-history", "norm": name, "fn": fn},
+                                 f"{name} after setting {p} (step {step}): {fn}({arg[i]!r}) = {a[i]!r}, fresh instance {b[i]!r}")
+                        return
+                for rg in ("normalize_range", "denormalize_range"):
+                    if tuple(np.asarray(getattr(norm, rg), dtype=float)) != tuple(np.asarray(getattr(fresh, rg), dtype=float)):
+                        ctx.fail({"what": "normalizer-range-depends-on-history", "norm": name, "range": rg}, f"{rg}: {getattr(norm, rg)} vs fresh {getattr(fresh, rg)} for {p}")
+                        return
+
+
 def _mean_trend(kind, dim, rng, scale=1.0):
     if kind == "none":
         return None, (lambda *x: 0.0 * x[0])
@@ -554,6 +648,8 @@ def check_vector_pipeline(ctx, c):
 
 
 CHECKS = {
+    "fit_skip": check_fit_skip,
+    "live": check_live,
     "vector_pipeline": check_vector_pipeline,
     "maps": check_maps,
     "loglik": check_loglik,
